@@ -1,20 +1,27 @@
 """C15 — selectors evaluate compositionally; GroupBy partitions by the selected context.
 
-Real code: lena.flow.Selector / And / Or / Not / SelectContext / Filter, lena.flow.GroupBy,
-lena.context.make_include_exclude_tree / IncludeExcludeTree.get.
+Real code: lena.flow.Selector / And / Or / Not / SelectContext / Filter / RunIf, lena.flow.GroupBy (and the
+deprecated lena.flow.group_by._GroupBy), lena.context.make_include_exclude_tree / IncludeExcludeTree.get,
+lena.context.contains / get_recursively.
 Model: lean/LenaModel/Model/C15.lean; specification vocabulary lean/LenaModel/Model/C15Spec.lean; helper lemmas
 lean/LenaModel/Lemmas/C15.lean; theorems lean/LenaModel/Props/C15.lean.
 
 Cases (JSON):
   {"op":"select","spec":SPEC,"roe":bool,"top":"selector"|"filter","values":[{"d":data,"c":ctx|null},..]}
-  {"op":"groupby","group_by":S,"merge":S,"contexts":[ctx|null,..]}          S = "str" | ["str",..]
+  {"op":"filterseq","a":SPEC,"b":SPEC,"values":[..]}                        Sequence(Filter(a), Filter(b))
+  {"op":"runif","spec":SPEC,"seq":"ident"|"dup"|"drop"|"tag","values":[..]}
+  {"op":"groupby","group_by":S,"merge":S,"contexts":[ctx|null,..],"via":"fill"|"update","end":"reset"|"clear"}
   {"op":"groupby","group_by":S,"merge":S,"ctxset":"ab2"}                    a named, fixed list of contexts
-SPEC is the encoding documented in lean/drivers/C15.lean.
+        S = "str" | ["str",..] | {"notiter":true} (a callable)
+  {"op":"oldgroupby","group_by":NAME | [NAME,..] | {"bad":true},"values":[..]}   the deprecated _GroupBy with callables
+  {"op":"contains","ctx":ctx,"s":"a.b"}   {"op":"splitkey","s":..}   {"op":"startswith","a":[..],"b":[..]}
+SPEC and KEY are the encodings documented in lean/drivers/C15.lean; a context leaf ["obj", s] is an object that json
+cannot encode and whose str() is s.
 """
 import functools
 import itertools
-import json
-import os
+import random
+import warnings
 
 from harness.common import exc_name, jdump
 
@@ -25,18 +32,25 @@ LEAN_SOURCES = ["LenaModel/Model/C15.lean", "LenaModel/Model/C15Spec.lean", "Len
                 "LenaModel/Props/C15.lean"]
 DRIVER = "drivers/C15.lean"
 THEOREMS = [
-    # Part 1: selectors, SelectContext, Filter
+    # Part 1: selectors, SelectContext, Filter, RunIf
     "Lena.C15.selector_compositional",
     "Lena.C15.sem_list_tuple",
     "Lena.C15.selector_init_error",
     "Lena.C15.selector_absorbs_errors",
     "Lena.C15.selector_total_leaves",
     "Lena.C15.semB_list_tuple_not",
+    "Lena.C15.not_sem",
+    "Lena.C15.not_of_absorbing",
+    "Lena.C15.not_not_sem",
     "Lena.C15.contains_spec",
     "Lena.C15.select_context_absent_false",
     "Lena.C15.select_context_present",
+    "Lena.C15.select_context_bad_key",
     "Lena.C15.filter_stops_at_first_error",
     "Lena.C15.filter_keeps_selected",
+    "Lena.C15.filter_seq_eq_and",
+    "Lena.C15.filter_seq_eq_stages",
+    "Lena.C15.runif_spec",
     # Part 2: include/exclude trees
     "Lena.C15.make_fuel_suffices",
     "Lena.C15.sel_eq_polarity",
@@ -44,6 +58,19 @@ THEOREMS = [
     "Lena.C15.polarity_spec",
     "Lena.C15.iet_get_is_longest_prefix",
     "Lena.C15.make_include_exclude_tree_get",
+    "Lena.C15.iet_get_general",
+    "Lena.C15.selC_eq_flipWalk",
+    "Lena.C15.selC_snoc",
+    "Lena.C15.selC_eq_polarity_of_disjoint",
+    "Lena.C15.overlap_rule",
+    "Lena.C15.make_rejects_iff",
+    "Lena.C15.make_accepts_iff",
+    "Lena.C15.make_include_exclude_tree_rejects_iff",
+    "Lena.C15.rejectsB_iff",
+    "Lena.C15.disjointB_iff",
+    "Lena.C15.agreeOnB_iff",
+    "Lena.C15.wfV_iff",
+    "Lena.C15.startsWith_iff",
     "Lena.C15.keep_leaf_paths",
     "Lena.C15.same_key_iff_agree",
     # Part 3: GroupBy
@@ -51,46 +78,92 @@ THEOREMS = [
     "Lena.C15.groupby_groups_perm",
     "Lena.C15.groupby_default_one_group",
     "Lena.C15.groupby_share_iff_agree",
+    "Lena.C15.groupby_fill_raises_iff",
+    "Lena.C15.groupby_init_type_error",
+    "Lena.C15.old_groupby_partition",
+    "Lena.C15.old_groupby_first_error",
 ]
 TRUSTED = [
     "Lean 4.33.0 kernel; axioms limited to propext, Classical.choice, Quot.sound (audited by #print axioms on every run)",
-    "hand transcription of lena/flow/selectors.py, filter.py, group_by.py, lena/context/include_exclude_tree.py and of "
-    "contains/get_recursively (lena/context/functions.py) into LenaModel/Model/C15.lean, validated by this correspondence check",
+    "hand transcription of lena/flow/selectors.py, filter.py, group_by.py (GroupBy and _GroupBy), RunIf (elements.py), "
+    "lena/context/include_exclude_tree.py and of contains/get_recursively (lena/context/functions.py) into "
+    "LenaModel/Model/C15.lean, validated by this correspondence check",
     "dictionaries as slot vectors over the key alphabet of the case (DESIGN.md section 2): iteration order of dict.items() and "
     "of the set of starting prefixes is abstracted (it only decides which of several LenaValueErrors is raised first)",
     "to_string (json.dumps, sort_keys) is injective on contexts built from None/bool/int/str and string-keyed dictionaries "
-    "(the model uses the selected sub-context itself as the group key); validated by comparing groups and keys on every case",
+    "(the model uses the selected sub-context itself as the group key; C08 proves to_string_canonical on its own value "
+    "model); validated by comparing groups and keys on every case",
     "JSON line protocol encoders (harness/props/c15.py, drivers/C15.lean)",
 ]
 ASSUMPTIONS = [
     "leaves of a specification are predicates with outcome True / False / raise (callables returning non-booleans are outside "
     "the model: Selector returns what the callable returns)",
-    "contexts are built from None, bool, int, str and string-keyed dictionaries; agreement of two contexts on a key path is "
-    "type-strict (True and 1 differ, as they do for to_string)",
-    "a key path listed in both group_by and merge has no well-defined longest-prefix entry and is excluded by hypothesis "
-    "(theorem hypothesis Disjoint; such key sets are still compared with the model, but the partition oracle is silent)",
-    "group_by and merge are strings or tuples of strings; SelectContext keys are strings or lists of strings",
+    "contexts are built from None, bool, int, str, objects json cannot encode, and string-keyed dictionaries; agreement of two "
+    "contexts on a key path is type-strict (True and 1 differ, as they do for to_string)",
+    "the partition oracle speaks about key sets in which no path is listed in both group_by and merge (the property's "
+    "longest-prefix entry is then well defined); overlapping key sets are covered by the theorems iet_get_general / "
+    "overlap_rule and by the correspondence run (model and specification-side values against the implementation)",
+    "group_by and merge are strings, tuples of strings or non-iterables; SelectContext keys are strings, lists or dictionaries",
+    "keys returned by the callables of the deprecated _GroupBy are None, ints or strings (no bools: True == 1 would merge)",
+    "the sequence inside RunIf does not raise",
 ]
 RULE = ("select: exhaustive specifications of depth <= 2 over 4 leaves (string, class, total and raising callable) with lists/"
         "tuples of 1-2 items and Not with both raise_on_error values, all depth <= 1 specifications over 9 leaves, x both "
-        "raise_on_error x 9 values, as Selector and as Filter; seeded random specifications of depth <= 3 (quick 2000, thorough "
-        "120000) with Selector/And/Or/Not/SelectContext instances, bad items, random contexts. groupby: every assignment of the 6 "
-        "paths of depth <= 2 over {a,b} to group_by/merge/neither x both roots (1458 key sets) x all 361 contexts of depth <= 2 "
-        "over {a,b} with leaves {1,2} and {} (scalars where a listed path expects a dictionary included); seeded random key sets "
-        "over {a,b,c} up to depth 3 with random contexts up to depth 3 (quick 800, thorough 60000), overlapping and improper key "
-        "sets, string/tuple argument forms. Non-trivial: select - a value is selected and another is not, or an exception; "
-        "groupby - at least two groups and a group with two values, or a construction error.")
+        "raise_on_error x 12 values, as Selector and as Filter; all Not-chains of depth <= 3 x all raise_on_error combinations over "
+        "9 inner selectors (raising, total, partial; bare and wrapped in Selector with either raise_on_error), also inside lists; "
+        "SelectContext over 19 key forms (dotted strings, lists, one-key dictionaries, malformed keys) x 6 predicates; seeded "
+        "random specifications of depth <= 3 (quick 2000, thorough 120000) with Selector/And/Or/Not/SelectContext instances, bad "
+        "items, random contexts (present-but-falsy sub-contexts, unserialisable objects). filterseq: all pairs of 9 leaves + "
+        "sampled (quick 300, thorough 8000); runif: 13 selectors x 4 sequences + sampled (quick 200, thorough 5000). groupby: "
+        "every assignment of the 6 paths of depth <= 2 over {a,b} to group_by/merge/neither x both roots (1458 key sets) x all "
+        "361 contexts of depth <= 2 over {a,b} with leaves {1,2} and {}; every assignment of those 6 paths to "
+        "group_by/merge/both/neither (overlaps, 8192 key sets; quick: a seeded sample of 1200) x 40 contexts; seeded random key "
+        "sets over {a,b,c} up to depth 3 with random contexts up to depth 3 (quick 800, thorough 60000), overlapping and "
+        "improper key sets, string/tuple/callable argument forms, update/clear aliases, unserialisable objects. oldgroupby: "
+        "all singles, pairs and sampled triples of 6 callables x random flows. contains: 16 strings x 120 contexts; "
+        "_split_key and _startswith on small exhaustive sets. Non-trivial: select - a value is selected and another is not, "
+        "or an exception; groupby - at least two groups and a group with two values, or a construction error.")
 CASE_TIMEOUT = 20
-# SelectContext instances are generated inside Selector/Not/And/Or/lists/tuples too (possible since commit 0b5fd4d;
-# before it the construction raised AttributeError '_selector_repr').  C15_SELCTX_NESTED=0 switches that off.
-SELCTX_NESTED = os.environ.get("C15_SELCTX_NESTED", "1") != "0"
+
 
 # ---------------------------------------------------------------------------------------------
-# python side of the specification encoding
+# python side of the encodings
 
 
-class _Raise:
-    pass
+class _Unser(object):
+    """an object json.dumps cannot encode; str() is given"""
+
+    def __init__(self, s):
+        self.s = s
+
+    def __str__(self):
+        return self.s
+
+    def __repr__(self):
+        return "_Unser(%r)" % self.s
+
+    def __eq__(self, other):
+        return isinstance(other, _Unser) and other.s == self.s
+
+    def __hash__(self):
+        return hash(self.s)
+
+
+def _mk(c):
+    """JSON context -> a fresh Python context"""
+    if isinstance(c, dict):
+        return {k: _mk(v) for k, v in c.items()}
+    if isinstance(c, list):
+        return _Unser(c[1])
+    return c
+
+
+def _unmk(c):
+    if isinstance(c, dict):
+        return {k: _unmk(v) for k, v in c.items()}
+    if isinstance(c, _Unser):
+        return ["obj", c.s]
+    return c
 
 
 def _fn_table():
@@ -134,6 +207,24 @@ def _pred_table():
 _CLS = {"object": object, "int": int, "bool": bool, "str": str, "tuple": tuple, "float": float, "dict": dict}
 
 
+def _build_key(key):
+    """JSON key -> what the user passes to SelectContext"""
+    if isinstance(key, dict):
+        tail = key["tail"]
+        if tail == "stop":
+            val = {}
+        elif tail == "multi":
+            val = {"x": 1, "y": 2}
+        else:
+            val = tail["key"] if tail["key"] is not None else 5
+        for k in reversed(key["dict"]):
+            val = {k: val}
+        return val
+    if isinstance(key, list):
+        return list(key)
+    return key
+
+
 def _build(spec):
     """JSON specification -> the Python value the user would write (may raise at construction)."""
     import lena.flow
@@ -157,7 +248,7 @@ def _build(spec):
     if t == "or":
         return lena.flow.Or([_build(s) for s in spec["l"]], raise_on_error=spec["roe"])
     if t == "selctx":
-        return lena.flow.SelectContext(spec["key"], _pred_table()[spec["pred"]], raise_on_error=spec["roe"])
+        return lena.flow.SelectContext(_build_key(spec["key"]), _pred_table()[spec["pred"]], raise_on_error=spec["roe"])
     if t == "bad":
         return 5
     raise ValueError(t)
@@ -169,7 +260,7 @@ def _value(v):
         d = (1, 2)
     if v["c"] is None:
         return d
-    return (d, json.loads(json.dumps(v["c"])))
+    return (d, _mk(v["c"]))
 
 
 def _unvalue(val):
@@ -180,7 +271,7 @@ def _unvalue(val):
         d, c = val, None
     if isinstance(d, tuple):
         d = {"tuple": True}
-    return {"d": d, "c": c}
+    return {"d": d, "c": _unmk(c)}
 
 
 def _out(f, *a):
@@ -193,6 +284,16 @@ def _out(f, *a):
     return {"nonbool": repr(r)}
 
 
+def _drain(gen):
+    kept, stop = [], None
+    try:
+        for v in gen:
+            kept.append(_unvalue(v))
+    except Exception as e:  # noqa: BLE001
+        stop = exc_name(e)
+    return kept, stop
+
+
 # ---------------------------------------------------------------------------------------------
 # named context sets
 
@@ -203,8 +304,11 @@ def _ctxset(name):
         sub = [dict((k, v) for k, v in zip("ab", vs) if v is not None)
                for vs in itertools.product([None, 1, 2, {}], repeat=2)]
         vals = [None, 1, 2] + sub
-        return [dict((k, json.loads(json.dumps(v))) for k, v in zip("ab", vs) if v is not None)
+        return [dict((k, _mk(v)) for k, v in zip("ab", vs) if v is not None)
                 for vs in itertools.product(vals, repeat=2)]
+    if name == "ab2s":
+        # a spread sample of ab2 (overlap scope)
+        return _ctxset("ab2")[::9]
     raise ValueError(name)
 
 
@@ -215,6 +319,7 @@ def _contexts(case):
 # ---------------------------------------------------------------------------------------------
 # generators
 
+_U = ["obj", "U"]
 _VALUES = [
     {"d": 3, "c": None},
     {"d": "s", "c": None},
@@ -225,6 +330,10 @@ _VALUES = [
     {"d": None, "c": {"a": 1, "b": {"a": {}}}},
     {"d": "x", "c": {"b": 5}},
     {"d": -2, "c": {"a": {"b": {"a": 0}}, "b": "a"}},
+    # present but falsy sub-contexts, an object that is no JSON value
+    {"d": 2, "c": {"a": {}, "b": 0}},
+    {"d": 4, "c": {"a": {"b": None}, "b": ""}},
+    {"d": 5, "c": {"a": {"b": _U}}},
 ]
 
 
@@ -242,6 +351,12 @@ def _F(f):
 
 _LEAVES4 = [_S("a.b"), _C("int"), _F("true"), _F("pos")]
 _LEAVES9 = [_S("a"), _S("a.b"), _S("a.b.1"), _C("int"), _C("str"), _F("true"), _F("false"), _F("inv"), _F("raise_lke")]
+
+_KEY_FORMS = ["a", "a.b", "b", "", "a.b.a", "b.a", ["a"], ["a", "b"], [], "a..b", "c",
+              {"dict": ["a"], "tail": "stop"}, {"dict": ["a"], "tail": {"key": "b"}}, {"dict": ["a", "b"], "tail": "stop"},
+              {"dict": [], "tail": "stop"}, {"dict": ["a"], "tail": "multi"}, {"dict": [], "tail": "multi"},
+              {"dict": ["a"], "tail": {"key": None}}, ["a", 5]]
+_PREDS = ["true", "false", "raise_zde", "isdict", "pos", "eq1"]
 
 
 def _level(items, with_not=True):
@@ -275,9 +390,8 @@ def _rand_ctx(rng, keys, depth, leaves=(1, 2, None, True, "b", 0, "1")):
 
 
 def _rand_selctx(rng):
-    key = rng.choice(["a", "a.b", "b", "", "a.b.a", ["a"], ["a", "b"], [], "a..b", ["b", "a"]])
-    return {"t": "selctx", "key": key, "pred": rng.choice(["true", "false", "raise_zde", "isdict", "pos", "eq1"]),
-            "roe": rng.random() < 0.5}
+    key = rng.choice(_KEY_FORMS + ["a", "a.b", "b", ["b", "a"]])
+    return {"t": "selctx", "key": key, "pred": rng.choice(_PREDS), "roe": rng.random() < 0.5}
 
 
 def _rand_spec(rng, depth):
@@ -285,15 +399,13 @@ def _rand_spec(rng, depth):
     if depth <= 0 or r < 0.3:
         k = rng.random()
         if k < 0.3:
-            return _S(rng.choice(["a", "b", "a.b", "a.b.1", "b.a", "a.b.a", "", "a.", "c"]))
+            return _S(rng.choice(["a", "b", "a.b", "a.b.1", "b.a", "a.b.a", "", "a.", "c", "a.b.U", "a.None"]))
         if k < 0.5:
             return _C(rng.choice(list(_CLS)))
         if k < 0.9:
             return _F(rng.choice(["true", "false", "raise_zde", "raise_lke", "pos", "inv", "has_ctx"]))
         if k < 0.97:
-            if SELCTX_NESTED:
-                return _rand_selctx(rng)
-            return _F("inv")
+            return _rand_selctx(rng)
         return {"t": "bad"}
     n = rng.choice([0, 1, 1, 2, 2, 3])
     if r < 0.5:
@@ -309,6 +421,16 @@ def _rand_spec(rng, depth):
     return {"t": "or", "l": [_rand_spec(rng, depth - 1) for _ in range(n)], "roe": rng.random() < 0.5}
 
 
+def _rand_values(rng, n_extra=3, lo=1, hi=None):
+    vals = list(_VALUES)
+    for _ in range(n_extra):
+        d = rng.choice([0, 1, 2, -1, True, False, None, "s", {"tuple": True}])
+        c = None if rng.random() < 0.2 else _rand_ctx(rng, "ab", 3, leaves=(1, 2, None, True, "b", 0, "1", "", _U))
+        vals.append({"d": d, "c": c})
+    rng.shuffle(vals)
+    return vals[:rng.randint(lo, hi or len(vals))]
+
+
 _PATHS_AB2 = ["a", "b", "a.a", "a.b", "b.a", "b.b"]
 
 
@@ -317,6 +439,18 @@ def _keysets_ab2():
         for assign in itertools.product((0, 1, 2), repeat=len(_PATHS_AB2)):
             g = [p for p, a in zip(_PATHS_AB2, assign) if a == 1]
             m = [p for p, a in zip(_PATHS_AB2, assign) if a == 2]
+            (g if root_in_group else m).insert(0, "")
+            yield g, m
+
+
+def _keysets_ab2_overlap():
+    """every assignment of the six paths to group_by / merge / both / neither with at least one path in both"""
+    for root_in_group in (True, False):
+        for assign in itertools.product((0, 1, 2, 3), repeat=len(_PATHS_AB2)):
+            if 3 not in assign:
+                continue
+            g = [p for p, a in zip(_PATHS_AB2, assign) if a in (1, 3)]
+            m = [p for p, a in zip(_PATHS_AB2, assign) if a in (2, 3)]
             (g if root_in_group else m).insert(0, "")
             yield g, m
 
@@ -356,8 +490,8 @@ def _rand_keyset(rng):
         m.append("")
     if rng.random() < 0.03:
         (g if rng.random() < 0.5 else m).append(rng.choice(["a..b", ".a", "a."]))
-    if rng.random() < 0.05 and g:
-        m.append(rng.choice(g))      # overlap: excluded by hypothesis, still compared with the model
+    if rng.random() < 0.08 and g:
+        m.append(rng.choice(g))      # overlap: outside the partition oracle, compared with model and specification
     rng.shuffle(g)
     rng.shuffle(m)
 
@@ -365,13 +499,37 @@ def _rand_keyset(rng):
         if len(l) == 1 and rng.random() < 0.5:
             return l[0]
         return l
-    return form(g), form(m)
+    g, m = form(g), form(m)
+    if rng.random() < 0.02:
+        if rng.random() < 0.5:
+            g = {"notiter": True}
+        else:
+            m = {"notiter": True}
+    return g, m
 
 
-def gen_cases(ctx):
-    rng = ctx.rng
-    cases = []
-    # --- selectors: exhaustive small scopes
+_KEYFNS = ["parity", "name", "zero", "const", "keyerr", "sign"]
+_SEQS = ["ident", "dup", "drop", "tag"]
+
+
+def _sub(rng):
+    return random.Random(rng.random())
+
+
+def _round_robin(gens):
+    gens = [iter(g) for g in gens]
+    while gens:
+        alive = []
+        for g in gens:
+            try:
+                yield next(g)
+                alive.append(g)
+            except StopIteration:
+                pass
+        gens = alive
+
+
+def _gen_select_exhaustive(ctx):
     lvl1_4 = _LEAVES4 + _level(_LEAVES4)
     specs = list(_LEAVES9) + _level(_LEAVES9) + _level(lvl1_4)
     seen = set()
@@ -381,64 +539,233 @@ def gen_cases(ctx):
             continue
         seen.add(k)
         for roe in (True, False):
-            cases.append({"op": "select", "spec": s, "roe": roe, "top": "selector", "values": _VALUES})
-        cases.append({"op": "select", "spec": s, "roe": True, "top": "filter", "values": _VALUES})
-    # instances directly, SelectContext on every key form
-    for key in ["a", "a.b", "b", "", "a.b.a", "b.a", ["a"], ["a", "b"], [], "a..b", "c"]:
-        for pred in ["true", "false", "raise_zde", "isdict", "pos", "eq1"]:
+            yield {"op": "select", "spec": s, "roe": roe, "top": "selector", "values": _VALUES}
+        yield {"op": "select", "spec": s, "roe": True, "top": "filter", "values": _VALUES}
+
+
+def _gen_select_special(ctx):
+    # SelectContext on every key form, directly and inside other selectors
+    for key in _KEY_FORMS:
+        for pred in _PREDS:
             for roe in (True, False):
                 s = {"t": "selctx", "key": key, "pred": pred, "roe": roe}
-                cases.append({"op": "select", "spec": s, "roe": True, "top": "filter", "values": _VALUES})
-                if SELCTX_NESTED:
-                    cases.append({"op": "select", "spec": {"t": "list", "l": [s, _F("false")]}, "roe": not roe,
-                                  "top": "selector", "values": _VALUES})
-                    cases.append({"op": "select", "spec": {"t": "not", "s": s, "roe": not roe}, "roe": roe,
-                                  "top": "filter", "values": _VALUES})
+                yield {"op": "select", "spec": s, "roe": True, "top": "filter", "values": _VALUES}
+                yield {"op": "select", "spec": {"t": "list", "l": [s, _F("false")]}, "roe": not roe,
+                       "top": "selector", "values": _VALUES}
+                yield {"op": "select", "spec": {"t": "not", "s": s, "roe": not roe}, "roe": roe,
+                       "top": "filter", "values": _VALUES}
     for s in [{"t": "bad"}, {"t": "list", "l": [_F("true"), {"t": "bad"}]}, {"t": "not", "s": {"t": "bad"}, "roe": True},
               {"t": "tuple", "l": [{"t": "list", "l": [{"t": "bad"}]}]}]:
         for top in ("selector", "filter"):
-            cases.append({"op": "select", "spec": s, "roe": True, "top": top, "values": _VALUES[:2]})
-    # --- selectors: sampled deeper specifications
-    n_sel = 2000 if ctx.tier == "quick" else 120000
-    for _ in range(n_sel):
-        vals = list(_VALUES)
-        for _ in range(3):
-            d = rng.choice([0, 1, 2, -1, True, False, None, "s", {"tuple": True}])
-            c = None if rng.random() < 0.2 else _rand_ctx(rng, "ab", 3)
-            vals.append({"d": d, "c": c})
-        rng.shuffle(vals)
+            yield {"op": "select", "spec": s, "roe": True, "top": top, "values": _VALUES[:2]}
+    # Not-chains of depth <= 3, every raise_on_error combination, over raising / total / partial inner selectors
+    inner = []
+    for leaf in (_F("raise_zde"), _F("true"), _F("inv")):
+        inner.append(leaf)
+        for r in (True, False):
+            inner.append({"t": "sel", "s": leaf, "roe": r})
+    for base in inner:
+        for depth in (1, 2, 3):
+            for roes in itertools.product((True, False), repeat=depth):
+                s = base
+                for r in roes:
+                    s = {"t": "not", "s": s, "roe": r}
+                for roe in (True, False):
+                    yield {"op": "select", "spec": s, "roe": roe, "top": "selector", "values": _VALUES[:6]}
+                yield {"op": "select", "spec": s, "roe": True, "top": "filter", "values": _VALUES[:6]}
+                if depth <= 2:
+                    for cont in ("list", "tuple"):
+                        for roe in (True, False):
+                            yield {"op": "select", "spec": {"t": cont, "l": [s, _C("int")]}, "roe": roe, "top": "selector",
+                                   "values": _VALUES[:6]}
+
+
+def _gen_select_random(ctx, rng, n):
+    for _ in range(n):
         top = "filter" if rng.random() < 0.3 else "selector"
         spec = _rand_selctx(rng) if top == "filter" and rng.random() < 0.15 else _rand_spec(rng, 3)
-        cases.append({"op": "select", "spec": spec, "roe": rng.random() < 0.5, "top": top,
-                      "values": vals[:rng.randint(1, 12)]})
-    # --- GroupBy: exhaustive over {a,b}, depth <= 2
+        yield {"op": "select", "spec": spec, "roe": rng.random() < 0.5, "top": top, "values": _rand_values(rng, hi=12)}
+
+
+def _gen_filterseq(ctx, rng, n):
+    for a in _LEAVES9:
+        for b in _LEAVES9:
+            yield {"op": "filterseq", "a": a, "b": b, "values": _VALUES}
+    for _ in range(n):
+        yield {"op": "filterseq", "a": _rand_spec(rng, 2), "b": _rand_spec(rng, 2), "values": _rand_values(rng, hi=10)}
+
+
+def _gen_runif(ctx, rng, n):
+    sels = _LEAVES9 + [{"t": "list", "l": [_C("int"), _S("a.b")]}, {"t": "not", "s": _F("inv"), "roe": False},
+                      {"t": "selctx", "key": "a.b", "pred": "eq1", "roe": True}, {"t": "bad"}]
+    for s in sels:
+        for seq in _SEQS:
+            yield {"op": "runif", "spec": s, "seq": seq, "values": _VALUES}
+    for _ in range(n):
+        yield {"op": "runif", "spec": _rand_spec(rng, 2), "seq": rng.choice(_SEQS), "values": _rand_values(rng, hi=10)}
+
+
+def _gen_groupby_exhaustive(ctx):
     for g, m in _keysets_ab2():
-        cases.append({"op": "groupby", "group_by": g, "merge": m, "ctxset": "ab2"})
-    # argument forms, defaults, duplicates, improper keys, overlaps
-    some_ctx = _ctxset("ab2")[::7]
+        yield {"op": "groupby", "group_by": g, "merge": m, "ctxset": "ab2"}
+
+
+def _gen_groupby_overlap(ctx, rng):
+    sets = list(_keysets_ab2_overlap())
+    if ctx.tier == "quick":
+        sets = rng.sample(sets, 1200)
+    for g, m in sets:
+        yield {"op": "groupby", "group_by": g, "merge": m, "ctxset": "ab2s"}
+
+
+def _gen_groupby_special(ctx):
+    # argument forms, defaults, duplicates, improper keys, overlaps, callables, aliases, unserialisable objects
+    some_ctx = list(_ctxset("ab2")[::7])
+    nt = {"notiter": True}
     for g, m in [("", ""), ("a", ""), ("", "a"), ("a.b", ""), ("", "a.b"), (["a", "a"], ""), ("", ["a", "a"]),
                  ([""], ["a", "a.b"]), (["", "a.b"], ["a", "a"]), ("a..b", ""), ("", ".a"), ("a.", ""),
                  ("a", "a"), ("", ["a", ""]), (["", "a"], ["a"]), (["a"], ["", "a"]), ([], []), ([], [""]), ([""], []),
-                 (["", "a.b"], ["a"]), (["a"], ["", "a.b"]), (["", "a.b.a"], ["a.b"]), (["", "a.b"], ["a", "b"])]:
-        cases.append({"op": "groupby", "group_by": g, "merge": m, "contexts": some_ctx + [None]})
-    # --- GroupBy: sampled, three keys, depth <= 3
-    n_gb = 800 if ctx.tier == "quick" else 60000
-    for _ in range(n_gb):
+                 (["", "a.b"], ["a"]), (["a"], ["", "a.b"]), (["", "a.b.a"], ["a.b"]), (["", "a.b"], ["a", "b"]),
+                 (nt, ""), ("", nt), (nt, nt), (nt, "a"), (["", "a"], nt), (nt, ["a..b"]), ("a..b", nt)]:
+        for via, end in (("fill", "reset"), ("update", "clear")):
+            yield {"op": "groupby", "group_by": g, "merge": m, "contexts": some_ctx + [None], "via": via, "end": end}
+    objs = [{"a": 1, "b": _U}, {"a": _U}, {"a": {"b": _U, "a": 1}}, {"a": {"a": 1}, "b": {"b": _U}}, {"a": 1}, {"b": 2},
+            {"a": {"b": 1, "a": _U}}, None]
+    for g, m in [("a", ""), ("", "a"), ("", "b"), ("a.a", ""), ("", "a.b"), (["", "a.b"], ["a"]), ("", ""), ("b", ""),
+                 (["", "a"], ["a"])]:
+        yield {"op": "groupby", "group_by": g, "merge": m, "contexts": objs}
+
+
+def _gen_groupby_random(ctx, rng, n):
+    for _ in range(n):
         g, m = _rand_keyset(rng)
-        n = rng.randint(2, 40)
-        cs = [None if rng.random() < 0.03 else _rand_ctx(rng, "abc", 3, leaves=(1, 2, True, "1", None)) for _ in range(n)]
-        cases.append({"op": "groupby", "group_by": g, "merge": m, "contexts": cs})
+        k = rng.randint(2, 40)
+        leaves = (1, 2, True, "1", None, _U) if rng.random() < 0.2 else (1, 2, True, "1", None)
+        cs = [None if rng.random() < 0.03 else _rand_ctx(rng, "abc", 3, leaves=leaves) for _ in range(k)]
+        c = {"op": "groupby", "group_by": g, "merge": m, "contexts": cs}
+        if rng.random() < 0.1:
+            c["via"], c["end"] = "update", "clear"
+        yield c
+
+
+def _gen_old(ctx, rng, n):
+    data = [1, 2, 3, -1, 0, "x", "y", None, 4, "x"]
+    yield {"op": "oldgroupby", "group_by": {"bad": True}, "values": [{"d": 1, "c": None}]}
+    gbs = list(_KEYFNS) + [[a] for a in _KEYFNS] + [[a, b] for a in _KEYFNS for b in _KEYFNS]
+    for gb in gbs:
+        yield {"op": "oldgroupby", "group_by": gb, "values": [{"d": d, "c": None} for d in data]}
+    for _ in range(n):
+        gb = [rng.choice(_KEYFNS) for _ in range(rng.randint(1, 3))]
+        if len(gb) == 1 and rng.random() < 0.5:
+            gb = gb[0]
+        vals = [{"d": rng.choice(data), "c": None if rng.random() < 0.7 else {"a": 1}} for _ in range(rng.randint(0, 12))]
+        c = {"op": "oldgroupby", "group_by": gb, "values": vals}
+        if rng.random() < 0.3:
+            c["via"], c["end"] = "update", "clear"
+        yield c
+
+
+def _gen_small(ctx):
+    strings = ["", "a", "b", "a.b", "a.b.1", "a.1", "a.", ".a", "a..b", "c", "a.b.c", "a.None", "a.True", "a.U", "b.a", "a.b.a"]
+    leaves = [None, 1, True, "b", _U, {}, {"b": 1}, {"b": {"a": 1}}, {"a": "1", "b": None}, {"b": _U}]
+    ctxs = []
+    for va in leaves + ["absent"]:
+        for vb in leaves + ["absent"]:
+            c = {}
+            if va != "absent":
+                c["a"] = va
+            if vb != "absent":
+                c["b"] = vb
+            ctxs.append(c)
+    for c in ctxs[:120]:
+        for s in strings:
+            yield {"op": "contains", "ctx": c, "s": s}
+    for s in ["", "a", "a.b", "a..b", ".a", "a.", ".", "a.b.c", "abc", ".."]:
+        yield {"op": "splitkey", "s": s}
+    words = [[], ["a"], ["b"], ["a", "b"], ["a", "a"], ["a", "b", "c"], ["b", "a"]]
+    for a in words:
+        for b in words:
+            yield {"op": "startswith", "a": a, "b": b}
+
+
+def gen_cases(ctx):
     ctx.exhaustive = False   # the deeper scopes are sampled
-    return cases
+    rng = ctx.rng
+    quick = ctx.tier == "quick"
+    r = [_sub(rng) for _ in range(8)]
+    gens = [
+        _gen_small(ctx),
+        _gen_select_special(ctx),
+        _gen_groupby_special(ctx),
+        _gen_old(ctx, r[0], 150 if quick else 4000),
+        _gen_filterseq(ctx, r[1], 300 if quick else 8000),
+        _gen_runif(ctx, r[2], 200 if quick else 5000),
+        _gen_groupby_overlap(ctx, r[3]),
+        _gen_select_random(ctx, r[4], 2000 if quick else 120000),
+        _gen_groupby_random(ctx, r[5], 800 if quick else 60000),
+        _gen_select_exhaustive(ctx),
+        _gen_groupby_exhaustive(ctx),
+    ]
+    return _round_robin(gens)
 
 
 # ---------------------------------------------------------------------------------------------
 # the real code
 
+class _Dup(object):
+    def run(self, flow):
+        for v in flow:
+            yield v
+            yield v
+
+
+def _seq_args(name):
+    import lena.flow
+    if name == "ident":
+        return ()
+    if name == "dup":
+        return (_Dup(),)
+    if name == "drop":
+        return (lena.flow.Filter(lambda v: False),)
+    if name == "tag":
+        return (lambda val: ("t", lena.flow.get_context(val)),)
+    raise ValueError(name)
+
+
+def _keyfn_table():
+    import lena.core
+    import lena.flow
+
+    def name(v):
+        d = lena.flow.get_data(v)
+        if isinstance(d, str):
+            return d
+        raise lena.core.LenaKeyError("no name")
+
+    def keyerr(v):
+        raise lena.core.LenaKeyError("never")
+
+    def sign(v):
+        d = lena.flow.get_data(v)
+        if isinstance(d, int):
+            return (d > 0) - (d < 0)
+        return None
+
+    return {"parity": lambda v: lena.flow.get_data(v) % 2, "name": name, "zero": lambda v: 0, "const": lambda v: "k",
+            "keyerr": keyerr, "sign": sign}
+
+
+def _gb_arg(x):
+    if isinstance(x, dict):
+        return lambda val: 0          # group_by "is no longer a function"
+    return tuple(x) if isinstance(x, list) else x
+
+
 def run_impl(case):
     import lena.core
     import lena.flow
-    if case["op"] == "select":
+    op = case["op"]
+    if op == "select":
         try:
             py = _build(case["spec"])
             if case["top"] == "filter":
@@ -451,12 +778,8 @@ def run_impl(case):
             return {"init": exc_name(e)}
         vals = [_value(v) for v in case["values"]]
         r = [_out(sel, v) for v in vals]
-        kept, stop = [], None
-        try:
-            for v in flt.run(iter(vals)):
-                kept.append(_unvalue(v))
-        except Exception as e:  # noqa: BLE001
-            stop = exc_name(e)
+        kept, stop = _drain(flt.run(iter(vals)))
+
         # fill_into: the element is filled exactly with the selected values
         class _Store:
             def __init__(self):
@@ -473,28 +796,111 @@ def run_impl(case):
                 filled.append(len(st.vals) == n + 1 and st.vals[-1] is v)
             except Exception as e:  # noqa: BLE001
                 filled.append({"e": exc_name(e)})
-        return {"r": r, "kept": kept, "stop": stop, "filled": filled}
-    if case["op"] == "groupby":
-        def arg(x):
-            return tuple(x) if isinstance(x, list) else x
+        # the same selector object applied to the same values once more: selectors keep no state
+        r2 = [_out(sel, v) for v in vals]
+        return {"r": r, "kept": kept, "stop": stop, "filled": filled, "r2": r2}
+    if op == "filterseq":
         try:
-            gb = lena.flow.GroupBy(arg(case["group_by"]), arg(case["merge"]))
+            a, b = _build(case["a"]), _build(case["b"])
+            seq = lena.core.Sequence(lena.flow.Filter(a), lena.flow.Filter(b))
+            # the law: two filters in a row are one filter with the AND of the selectors
+            a2, b2 = _build(case["a"]), _build(case["b"])
+            both = lena.flow.Filter(lena.flow.And((a2, b2)))
         except Exception as e:  # noqa: BLE001
             return {"init": exc_name(e)}
-        for i, c in enumerate(_contexts(case)):
+        vals = [_value(v) for v in case["values"]]
+        kept, stop = _drain(seq.run(iter(vals)))
+        kept2, stop2 = _drain(both.run(iter([_value(v) for v in case["values"]])))
+        return {"kept": kept, "stop": stop, "and": {"kept": kept2, "stop": stop2}}
+    if op == "runif":
+        try:
+            el = lena.flow.RunIf(_build(case["spec"]), *_seq_args(case["seq"]))
+        except Exception as e:  # noqa: BLE001
+            return {"init": exc_name(e)}
+        kept, stop = _drain(el.run(iter([_value(v) for v in case["values"]])))
+        return {"kept": kept, "stop": stop}
+    if op == "groupby":
+        try:
+            gb = lena.flow.GroupBy(_gb_arg(case["group_by"]), _gb_arg(case["merge"]))
+        except Exception as e:  # noqa: BLE001
+            return {"init": exc_name(e)}
+        fill = gb.update if case.get("via") == "update" else gb.fill
+        errors = []
+        with warnings.catch_warnings():
+            warnings.simplefilter("ignore")
+            for i, c in enumerate(_contexts(case)):
+                try:
+                    fill(i if c is None else (i, _mk(c)))
+                except Exception as e:  # noqa: BLE001
+                    errors.append({"at": i, "e": exc_name(e)})
+            groups = []
+            for grp in gb.compute():
+                groups.append([v if isinstance(v, int) else v[0] for v in grp])
+            import json
+            keys = [json.loads(k) for k in gb.groups]
+            # reset() / clear() empty the element, which can then be used again
+            reuse = None
+            after = None
             try:
-                gb.fill(i if c is None else (i, json.loads(json.dumps(c))))
+                if case.get("end") == "clear":
+                    gb.clear()
+                else:
+                    gb.reset()
+                after = [list(g) for g in gb.compute()]
+                for i, c in enumerate(_contexts(case)):
+                    try:
+                        fill(i if c is None else (i, _mk(c)))
+                    except lena.core.LenaValueError:
+                        pass
+                reuse = [[v if isinstance(v, int) else v[0] for v in grp] for grp in gb.compute()]
             except Exception as e:  # noqa: BLE001
-                return {"fill": exc_name(e), "at": i}
-        groups = []
-        for grp in gb.compute():
-            groups.append([v if isinstance(v, int) else v[0] for v in grp])
-        keys = [json.loads(k) for k in gb.groups]
-        # reset() empties the element
-        gb.reset()
-        after = list(gb.compute())
-        return {"groups": groups, "keys": keys, "after_reset": after}
-    raise ValueError(case["op"])
+                reuse = {"e": exc_name(e)}
+        return {"groups": groups, "keys": keys, "errors": errors, "after": after, "reuse": reuse}
+    if op == "oldgroupby":
+        import lena.flow.group_by
+        gbj = case["group_by"]
+        t = _keyfn_table()
+        if isinstance(gbj, dict):
+            arg = 5
+        elif isinstance(gbj, list):
+            arg = tuple(t[n] for n in gbj)
+        else:
+            arg = t[gbj]
+        try:
+            gb = lena.flow.group_by._GroupBy(arg)
+        except Exception as e:  # noqa: BLE001
+            return {"init": exc_name(e)}
+        errors = []
+        fill = gb.update if case.get("via") == "update" else gb.fill
+        with warnings.catch_warnings():
+            warnings.simplefilter("ignore")
+            for i, v in enumerate(case["values"]):
+                try:
+                    fill(_value(v))
+                except Exception as e:  # noqa: BLE001
+                    errors.append({"at": i, "e": exc_name(e)})
+            keys, groups = [], []
+            for k, grp in gb.groups.items():
+                keys.append(list(k) if isinstance(k, tuple) else [k])
+                groups.append([_unvalue(v)["d"] for v in grp])
+            if case.get("end") == "clear":
+                gb.clear()
+            else:
+                gb.reset()
+        return {"groups": groups, "keys": keys, "errors": errors, "after": len(gb.groups)}
+    if op == "contains":
+        import lena.context
+        return {"r": _out(lena.context.contains, _mk(case["ctx"]), case["s"])}
+    if op == "splitkey":
+        from lena.context.include_exclude_tree import _split_key
+        try:
+            return {"r": list(_split_key(case["s"]))}
+        except Exception as e:  # noqa: BLE001
+            return {"e": exc_name(e)}
+    if op == "startswith":
+        from lena.context.include_exclude_tree import _startswith
+        return {"r": _out(_startswith, list(case["a"]), list(case["b"]))}
+    raise ValueError(op)
 
 
 # ---------------------------------------------------------------------------------------------
@@ -507,13 +913,23 @@ def _keys_of_ctx(c, acc):
             _keys_of_ctx(v, acc)
 
 
+def _keys_of_key(k, acc):
+    if isinstance(k, str):
+        acc.update(k.split("."))
+    elif isinstance(k, list):
+        acc.update(x for x in k if isinstance(x, str))
+    else:
+        acc.update(k["dict"])
+        if isinstance(k["tail"], dict) and k["tail"]["key"] is not None:
+            acc.add(k["tail"]["key"])
+
+
 def _keys_of_spec(s, acc):
     t = s["t"]
     if t == "str":
         acc.update(s["s"].split("."))
     elif t == "selctx":
-        k = s["key"]
-        acc.update(k.split(".") if isinstance(k, str) else k)
+        _keys_of_key(s["key"], acc)
     for sub in s.get("l", []):
         _keys_of_spec(sub, acc)
     if "s" in s and isinstance(s["s"], dict):
@@ -522,43 +938,157 @@ def _keys_of_spec(s, acc):
 
 def model_requests(case):
     names = set()
-    if case["op"] == "select":
-        _keys_of_spec(case["spec"], names)
+    op = case["op"]
+    if op in ("select", "filterseq", "runif"):
+        for k in ("spec", "a", "b"):
+            if k in case:
+                _keys_of_spec(case[k], names)
         for v in case["values"]:
             _keys_of_ctx(v["c"], names)
-        return [{"op": "select", "names": sorted(names), "spec": case["spec"], "roe": case["roe"], "top": case["top"],
-                 "values": case["values"]}]
-    cs = _contexts(case)
-    for c in cs:
-        _keys_of_ctx(c, names)
-    for arg in (case["group_by"], case["merge"]):
-        for key in ([arg] if isinstance(arg, str) else arg):
-            names.update(key.split("."))
-    return [{"op": "groupby", "names": sorted(names), "group_by": case["group_by"], "merge": case["merge"], "contexts": cs}]
+        return [dict(case, names=sorted(names))]
+    if op == "groupby":
+        cs = _contexts(case)
+        for c in cs:
+            _keys_of_ctx(c, names)
+        for arg in (case["group_by"], case["merge"]):
+            if isinstance(arg, dict):
+                continue
+            for key in ([arg] if isinstance(arg, str) else arg):
+                names.update(key.split("."))
+        return [{"op": "groupby", "names": sorted(names), "group_by": case["group_by"], "merge": case["merge"],
+                 "contexts": [_unmk(c) for c in cs], "via": case.get("via", "fill"), "end": case.get("end", "reset")}]
+    if op == "contains":
+        _keys_of_ctx(case["ctx"], names)
+        names.update(case["s"].split("."))
+        return [dict(case, names=sorted(names))]
+    return [case]
+
+
+def _eq(what, a, b):
+    if jdump(a) != jdump(b):
+        return f"{what}: impl {jdump(a)[:300]} vs model {jdump(b)[:300]}"
+    return None
 
 
 def compare(case, res, replies):
     m = replies[0]
     if "err" in m:
         return f"model driver error: {m['err']}"
+    op = case["op"]
+    if op in ("splitkey",):
+        return _eq("_split_key", res.get("r"), m["r"]) if "r" in res else (
+            None if m["r"] is None and res.get("e") == "LenaValueError" else f"_split_key: impl {res} vs model {m}")
+    if op == "startswith":
+        return _eq("_startswith", res["r"], m["r"]) or _eq("_startswith vs isPrefixOf", res["r"], m["spec"])
+    if op == "contains":
+        return _eq("contains", res["r"], m["r"]) or (
+            _eq("contains vs containsLast/valAt", res["r"], m["spec"]) if m["spec"] is not None else None)
     if "init" in res or "init" in m:
         if res.get("init") != m.get("init"):
             return f"construction: impl {res.get('init')} vs model {m.get('init')}"
+        if op == "select" and m.get("hasBad") is not True:
+            return "construction failed but hasBad is false"
+        if op == "groupby":
+            return _compare_gb_init(case, res, m)
         return None
-    if case["op"] == "select":
+    if op == "select":
         for k in ("r", "kept", "stop"):
-            if jdump(res[k]) != jdump(m[k]):
-                return f"{k}: impl {jdump(res[k])[:300]} vs model {jdump(m[k])[:300]}"
+            e = _eq(k, res[k], m[k])
+            if e:
+                return e
         # fill_into = the selector applied to each value
-        if jdump(res["filled"]) != jdump(m["r"]):
-            return f"fill_into: impl {jdump(res['filled'])[:300]} vs model {jdump(m['r'])[:300]}"
+        e = (_eq("fill_into", res["filled"], m["fill"]) or _eq("beforeError/firstError", [res["kept"], res["stop"]],
+                                                               [m["specRun"]["kept"], m["specRun"]["stop"]])
+             or _eq("sem", res["r"], m["sem"]))
+        if e:
+            return e
+        if m["semFold"] is not None:
+            e = _eq("orRes/andRes", res["r"], m["semFold"])
+            if e:
+                return e
+        if m["hasBad"]:
+            return "hasBad is true for a specification that was constructed"
+        if case["top"] == "selector" and not case["roe"] and m["allRoeF"] and m["keysOk"]:
+            e = _eq("semB (raise_on_error=False)", res["r"], m["semB"])
+            if e:
+                return e
+        for i, tot in enumerate(m["totalOn"]):
+            if tot and res["r"][i] != m["semB"][i]:
+                return f"semB (total leaves) at value {i}: impl {res['r'][i]} vs {m['semB'][i]}"
         return None
-    if "fill" in res:
-        return f"impl raised {res['fill']} in fill at value {res['at']}; the model has no such outcome"
-    if res["groups"] != m["groups"]:
-        return f"groups: impl {jdump(res['groups'])[:300]} vs model {jdump(m['groups'])[:300]}"
-    if jdump(res["keys"]) != jdump(m["keys"]):
-        return f"keys: impl {jdump(res['keys'])[:300]} vs model {jdump(m['keys'])[:300]}"
+    if op == "filterseq":
+        return (_eq("Sequence(Filter, Filter)", [res["kept"], res["stop"]], [m["kept"], m["stop"]])
+                or _eq("Filter(And)", [res["and"]["kept"], res["and"]["stop"]], [m["and"]["kept"], m["and"]["stop"]])
+                or _eq("stages", [res["kept"], res["stop"]], [m["stages"]["kept"], m["stages"]["stop"]]))
+    if op == "runif":
+        return (_eq("RunIf.run", [res["kept"], res["stop"]], [m["kept"], m["stop"]])
+                or _eq("runif_spec", [res["kept"], res["stop"]], [m["specRun"]["kept"], m["specRun"]["stop"]]))
+    if op == "oldgroupby":
+        e = _eq("groups", res["groups"], m["groups"]) or _eq("keys", res["keys"], m["keys"]) or _eq("errors", res["errors"], m["errors"])
+        if e:
+            return e
+        if res["after"] != m["after"]:
+            return f"groups after reset/clear: impl {res['after']} vs model {m['after']}"
+        if m["specEqModel"] is not True:
+            return "groupsOfG differs from the model's groups"
+        if res["errors"]:
+            if m["all"].get("e") != res["errors"][0]["e"]:
+                return f"oldFillAll: {m['all']} vs first impl error {res['errors'][0]}"
+        elif m["all"].get("ok") is not True:
+            return f"oldFillAll: {m['all']}"
+        return None
+    # groupby
+    e = _compare_gb_init(case, res, m)
+    if e:
+        return e
+    e = (_eq("groups", res["groups"], m["groups"]) or _eq("keys", res["keys"], m["keys"])
+         or _eq("fill errors", res["errors"], m["errors"]) or _eq("after reset/clear", res["after"], m["after"]))
+    if e:
+        return e
+    if m.get("parse") == "ok":
+        always = ["keyC_eq_model", "keyFlip_eq_model", "groupsOf_eq_model", "wf", "agreeC_iff_key"]
+        if m["disjoint"]:
+            always += ["keyP_eq_model", "keySel_eq_model", "agreeP_iff_key"]
+        for k in always:
+            if m.get(k) is not True:
+                return f"specification-side check {k} is {m.get(k)}"
+        G, M = _split_paths(case["group_by"]), _split_paths(case["merge"])
+        if case["group_by"] == "" and case["merge"] == "":
+            G, M = set(), {()}
+        cs = _contexts(case)
+        for c, nodes in zip(cs, m["nodes"]):
+            ref = {p: v for p, v in _nodes(c or {})}
+            if len(nodes) != len(ref):
+                return f"allPathsV: {len(nodes)} paths vs {len(ref)} in {jdump(_unmk(c))}"
+            for path, seen, sc, fw, pol, sel in nodes:
+                p = tuple(path)
+                if p not in ref or _seen_json(ref[p]) != seen:
+                    return f"seen at {path}: model {seen} vs context {jdump(_unmk(c))}"
+                exp_c = _flipwalk(G, M, p)
+                if sc != exp_c or fw != exp_c:
+                    return f"selC/flipWalk at {path}: {sc}/{fw} vs reference {exp_c} for {case['group_by']!r},{case['merge']!r}"
+                if m["disjoint"] and (pol != _polarity(G, M, p) or sel != pol):
+                    return f"polarity/sel at {path}: {pol}/{sel} vs reference {_polarity(G, M, p)}"
+        bad_at = {e["at"] for e in res["errors"]}
+        for i, h in enumerate(m["hasObjSel"]):
+            if h != (i in bad_at):
+                return f"hasObjL of the selected part of value {i}: {h}, impl raised: {i in bad_at}"
+    return None
+
+
+def _compare_gb_init(case, res, m):
+    """construction of GroupBy: exception class, and the specification-side reason for a LenaValueError"""
+    p = m.get("parse")
+    init = res.get("init")
+    if p == "type":
+        return None if init == "LenaTypeError" else f"non-iterable argument: impl {init}"
+    if p in ("root", "subkey"):
+        return None if init == "LenaValueError" else f"{p}: impl {init}, expected LenaValueError"
+    if p == "ok":
+        if (init == "LenaValueError") != m["rejects"]:
+            return f"rejectsB = {m['rejects']} but the implementation {'rejected' if init else 'accepted'} the key sets"
+        if init not in (None, "LenaValueError"):
+            return f"construction raised {init}"
     return None
 
 
@@ -599,6 +1129,31 @@ def _is_inst(s):
     return s["t"] in ("not", "sel", "and", "or", "selctx")
 
 
+class _RefError(Exception):
+    def __init__(self, name):
+        Exception.__init__(self, name)
+        self.name = name
+
+
+def _ref_keys(key):
+    """the simple keys a SelectContext key stands for; None = a key that is in no context"""
+    if isinstance(key, str):
+        return [k for k in key.split(".") if k]
+    if isinstance(key, list):
+        if not all(isinstance(k, str) for k in key):
+            raise _RefError("LenaTypeError")
+        return list(key)
+    tail = key["tail"]
+    if tail == "multi":
+        raise _RefError("LenaValueError")
+    ks = list(key["dict"])
+    if tail == "stop":
+        return ks
+    if tail["key"] is None:
+        return None
+    return ks + [tail["key"]]
+
+
 def _ref_eval(s, roe, val):
     """reference semantics of a specification under the inherited raise_on_error `roe`; raises what a leaf raises"""
     t = s["t"]
@@ -624,8 +1179,9 @@ def _ref_eval(s, roe, val):
     if t == "or":
         return any(_ref_eval(x, s["roe"], val) for x in s["l"])
     if t == "selctx":
-        key = s["key"]
-        keys = [k for k in key.split(".") if k] if isinstance(key, str) else key
+        keys = _ref_keys(s["key"])      # a malformed key raises, whatever raise_on_error is
+        if keys is None:
+            return False
         cur = ctx
         for k in keys:
             if not isinstance(cur, dict) or k not in cur:
@@ -633,6 +1189,10 @@ def _ref_eval(s, roe, val):
             cur = cur[k]
         return _absorb(s["roe"], lambda: _pred_table()[s["pred"]](cur))
     raise ValueError(t)
+
+
+def _exc(e):
+    return e.name if isinstance(e, _RefError) else exc_name(e)
 
 
 def _has_bad(s):
@@ -643,8 +1203,19 @@ def _has_bad(s):
     return any(_has_bad(x) for x in s.get("l", []))
 
 
+def _ref_filter_value(spec, v):
+    """Filter(spec) / RunIf(spec): an instance is used as it is, anything else becomes Selector(spec)"""
+    try:
+        b = _ref_eval(spec, True, v) if _is_inst(spec) else _absorb(True, lambda: _ref_eval(spec, True, v))
+        return bool(b)
+    except Exception as e:  # noqa: BLE001
+        return {"e": _exc(e)}
+
+
 def _split_paths(arg):
     out = set()
+    if isinstance(arg, dict):
+        return out
     for key in ([arg] if isinstance(arg, str) else arg):
         out.add(() if key == "" else tuple(key.split(".")))
     return out
@@ -659,6 +1230,15 @@ def _polarity(G, M, p):
     raise AssertionError("no root")
 
 
+def _flipwalk(G, M, p):
+    """the rule for all accepted key sets: the polarity flips at a prefix listed in the set opposite to the current one"""
+    c = () in G
+    for n in range(1, len(p) + 1):
+        if p[:n] in (M if c else G):
+            c = not c
+    return c
+
+
 def _nodes(c, p=()):
     """every key path of the context with what is seen there: a scalar (with its type) or 'a dictionary'"""
     for k, v in c.items():
@@ -666,16 +1246,48 @@ def _nodes(c, p=()):
         if isinstance(v, dict):
             yield q, ("dict",)
             yield from _nodes(v, q)
+        elif isinstance(v, (_Unser, list)):
+            yield q, ("leaf", "obj", v.s if isinstance(v, _Unser) else v[1])
         else:
             yield q, ("leaf", type(v).__name__, v)
+
+
+def _seen_json(view):
+    if view == ("dict",):
+        return "dict"
+    if view[1] == "obj":
+        return {"leaf": ["obj", view[2]]}
+    return {"leaf": view[2]}
 
 
 def _selected_view(G, M, c):
     return frozenset((p, view) for p, view in _nodes(c or {}) if _polarity(G, M, p))
 
 
+def _run_ref(exp, values, each):
+    """what a lazy element yields: `each(value, selected)` for the values before the first exception"""
+    kept, stop = [], None
+    for v, b in zip(values, exp):
+        if isinstance(b, dict):
+            stop = b["e"]
+            break
+        kept.extend(each(v, b))
+    return kept, stop
+
+
+def _ref_seq(name, v):
+    if name == "ident":
+        return [v]
+    if name == "dup":
+        return [v, v]
+    if name == "drop":
+        return []
+    return [{"d": "t", "c": v["c"] if v["c"] is not None else {}}]
+
+
 def oracle(case, res):
-    if case["op"] == "select":
+    op = case["op"]
+    if op == "select":
         spec = case["spec"]
         if "init" in res:
             if not _has_bad(spec):
@@ -690,48 +1302,95 @@ def oracle(case, res):
         vals = [_value(v) for v in case["values"]]
         exp = []
         for v in vals:
-            try:
-                if case["top"] == "filter":
-                    b = _ref_eval(spec, True, v) if _is_inst(spec) else _absorb(True, lambda: _ref_eval(spec, True, v))
-                else:
-                    b = _absorb(roe, lambda: _ref_eval(spec, roe, v))
-                exp.append(bool(b))
-            except Exception as e:  # noqa: BLE001
-                exp.append({"e": exc_name(e)})
+            if case["top"] == "filter":
+                exp.append(_ref_filter_value(spec, v))
+            else:
+                try:
+                    exp.append(bool(_absorb(roe, lambda: _ref_eval(spec, roe, v))))
+                except Exception as e:  # noqa: BLE001
+                    exp.append({"e": _exc(e)})
+        if jdump(res["r2"]) != jdump(res["r"]):
+            return (f"the selector gives {jdump(res['r2'])} when applied to the same values a second time, "
+                    f"{jdump(res['r'])} the first time (spec {jdump(spec)})")
         for i, (a, b) in enumerate(zip(res["r"], exp)):
             if a != b or type(a) is not type(b):
                 return (f"selector gives {a} on value {jdump(case['values'][i])}, the compositional reference gives {b} "
                         f"(spec {jdump(spec)}, raise_on_error={roe}, as {case['top']})")
         # Filter keeps exactly the selected values (up to the first exception, which propagates)
-        kept, stop = [], None
-        for v, b in zip(case["values"], exp):
-            if isinstance(b, dict):
-                stop = b["e"]
-                break
-            if b:
-                kept.append(v)
+        kept, stop = _run_ref(exp, case["values"], lambda v, b: [v] if b else [])
         if jdump(res["kept"]) != jdump(kept) or res["stop"] != stop:
             return (f"Filter.run kept {jdump(res['kept'])[:300]} stop={res['stop']}, selected values are "
                     f"{jdump(kept)[:300]} stop={stop}")
         if jdump(res["filled"]) != jdump(exp):
             return f"Filter.fill_into filled {jdump(res['filled'])}, selected: {jdump(exp)}"
         return None
+    if op in ("filterseq", "runif"):
+        specs = [case["a"], case["b"]] if op == "filterseq" else [case["spec"]]
+        bad = any(_has_bad(s) for s in specs)
+        if "init" in res:
+            if not bad or res["init"] != "LenaTypeError":
+                return f"construction raised {res['init']} for {jdump(specs)}"
+            return None
+        if bad:
+            return "a specification with an item that is neither class, callable, string, list nor tuple was accepted"
+        vals = [_value(v) for v in case["values"]]
+        if op == "filterseq":
+            # value by value: the first filter, then (if it passed) the second — the AND of the two
+            exp = []
+            for v in vals:
+                a = _ref_filter_value(specs[0], v)
+                exp.append(a if (isinstance(a, dict) or not a) else _ref_filter_value(specs[1], v))
+            kept, stop = _run_ref(exp, case["values"], lambda v, b: [v] if b else [])
+            for what, got in (("Sequence(Filter(a), Filter(b))", res), ("Filter(And((a, b)))", res["and"])):
+                if jdump(got["kept"]) != jdump(kept) or got["stop"] != stop:
+                    return (f"{what} yields {jdump(got['kept'])[:300]} stop={got['stop']}; the values selected by both are "
+                            f"{jdump(kept)[:300]} stop={stop} (a={jdump(specs[0])}, b={jdump(specs[1])})")
+            return None
+        exp = [_ref_filter_value(specs[0], v) for v in vals]
+        kept, stop = _run_ref(exp, case["values"], lambda v, b: _ref_seq(case["seq"], v) if b else [v])
+        if jdump(res["kept"]) != jdump(kept) or res["stop"] != stop:
+            return (f"RunIf({jdump(specs[0])}, {case['seq']}) yields {jdump(res['kept'])[:300]} stop={res['stop']}; selected values "
+                    f"run through the sequence and the others unchanged give {jdump(kept)[:300]} stop={stop}")
+        return None
+    if op == "contains":
+        exp = _ref_contains(_mk(case["ctx"]), case["s"])
+        if res["r"] != exp:
+            return f"contains({jdump(case['ctx'])}, {case['s']!r}) is {res['r']}, the documented meaning gives {exp}"
+        return None
+    if op in ("splitkey", "startswith"):
+        if op == "startswith":
+            a, b = case["a"], case["b"]
+            if res["r"] != (b[:len(a)] == a):
+                return f"_startswith({a}, {b}) is {res['r']}"
+        return None
+    if op == "oldgroupby":
+        return _oracle_old(case, res)
     # ---- groupby
     if "init" in res:
         return None          # the property speaks about key sets accepted by make_include_exclude_tree
+    if res["after"] is None or res["after"] or res["reuse"] != res["groups"]:
+        return (f"GroupBy({case['group_by']!r}, {case['merge']!r}) after reset()/clear(): groups {res['after']}; filled again with the "
+                f"same values: {res['reuse']}, the first time: {res['groups']}")
     G, M = _split_paths(case["group_by"]), _split_paths(case["merge"])
     if case["group_by"] == "" and case["merge"] == "":
         G, M = set(), {()}
     if G & M:
         return None          # excluded by hypothesis: a path listed in both has no longest-prefix entry
     cs = _contexts(case)
-    if "fill" in res:
-        return f"GroupBy.fill raised {res['fill']} on context {jdump(cs[res['at']])}"
-    groups = res["groups"]
-    flat = sorted(i for g in groups for i in g)
-    if flat != list(range(len(cs))):
-        return f"the groups {groups} are not a partition of the {len(cs)} filled values"
     views = [_selected_view(G, M, c) for c in cs]
+    unser = {i for i, v in enumerate(views) if any(view[:2] == ("leaf", "obj") for _, view in v)}
+    raised = {e["at"] for e in res["errors"]}
+    for e in res["errors"]:
+        if e["at"] not in unser or e["e"] != "LenaValueError":
+            return f"GroupBy.fill raised {e['e']} on context {jdump(_unmk(cs[e['at']]))}"
+    if unser - raised:
+        i = min(unser - raised)
+        return f"GroupBy.fill accepted the context {jdump(_unmk(cs[i]))} with an object json cannot encode at a selected key path"
+    groups = res["groups"]
+    filled = [i for i in range(len(cs)) if i not in raised]
+    flat = sorted(i for g in groups for i in g)
+    if flat != filled:
+        return f"the groups {groups} are not a partition of the {len(filled)} filled values"
     owner = {}
     for gi, g in enumerate(groups):
         if g != sorted(g):
@@ -741,20 +1400,72 @@ def oracle(case, res):
         for i in g:
             owner[i] = gi
     by_view = {}
-    for i, v in enumerate(views):
-        j = by_view.setdefault(v, i)
+    for i in filled:
+        j = by_view.setdefault(views[i], i)
         if owner[i] != owner[j]:
-            return (f"GroupBy({case['group_by']!r}, {case['merge']!r}) separates {jdump(cs[j])} from {jdump(cs[i])} although they "
-                    f"agree on every key path whose longest listed prefix is a group_by entry")
+            return (f"GroupBy({case['group_by']!r}, {case['merge']!r}) separates {jdump(_unmk(cs[j]))} from {jdump(_unmk(cs[i]))} "
+                    f"although they agree on every key path whose longest listed prefix is a group_by entry")
     first = {}
-    for i in range(len(cs)):
+    for i in filled:
         j = first.setdefault(owner[i], i)
         if views[i] != views[j]:
-            diff = sorted(views[i] ^ views[j])[0]
-            return (f"GroupBy({case['group_by']!r}, {case['merge']!r}) puts {jdump(cs[j])} and {jdump(cs[i])} into one group although "
-                    f"they differ at the selected key path {'.'.join(diff[0])}")
-    if res.get("after_reset"):
-        return f"groups after reset(): {res['after_reset']}"
+            diff = sorted(views[i] ^ views[j], key=repr)[0]
+            return (f"GroupBy({case['group_by']!r}, {case['merge']!r}) puts {jdump(_unmk(cs[j]))} and {jdump(_unmk(cs[i]))} into one "
+                    f"group although they differ at the selected key path {'.'.join(diff[0])}")
+    firsts = [g[0] for g in groups]
+    if firsts != sorted(firsts):
+        return f"the groups {groups} are not yielded in the order of first arrival"
+    return None
+
+
+def _oracle_old(case, res):
+    """the deprecated _GroupBy: values grouped by the value of the callable(s), arrival order kept"""
+    gbj = case["group_by"]
+    if "init" in res:
+        return None if isinstance(gbj, dict) and res["init"] == "LenaTypeError" else f"_GroupBy construction raised {res['init']}"
+    if isinstance(gbj, dict):
+        return "_GroupBy accepted a group_by that is neither a callable nor a string"
+    import lena.core
+    t = _keyfn_table()
+    keys, errs = [], {}
+    for i, v in enumerate(case["values"]):
+        val = _value(v)
+        try:
+            if isinstance(gbj, list):
+                group = []
+                for n in gbj:
+                    try:
+                        group.append(t[n](val))
+                    except lena.core.LenaKeyError:
+                        group.append("")
+                if not any(group):
+                    raise lena.core.LenaValueError("no key")
+                keys.append(group)
+            else:
+                try:
+                    keys.append([t[gbj](val)])
+                except lena.core.LenaKeyError:
+                    raise lena.core.LenaValueError("no key")
+        except Exception as e:  # noqa: BLE001
+            keys.append(None)
+            errs[i] = exc_name(e)
+    got = {e["at"]: e["e"] for e in res["errors"]}
+    if got != errs:
+        return f"_GroupBy.fill raised {got}, expected {errs} for group_by={gbj} on {jdump(case['values'])}"
+    order, members = [], {}
+    for i, k in enumerate(keys):
+        if k is None:
+            continue
+        kk = jdump(k)
+        if kk not in members:
+            members[kk] = []
+            order.append(k)
+        members[kk].append(case["values"][i]["d"])
+    exp = [members[jdump(k)] for k in order]
+    if res["after"]:
+        return f"_GroupBy holds {res['after']} groups after reset()/clear()"
+    if jdump(res["groups"]) != jdump(exp) or jdump(res["keys"]) != jdump(order):
+        return f"_GroupBy groups {jdump(res['groups'])} keys {jdump(res['keys'])}; by key and arrival: {jdump(exp)} keys {jdump(order)}"
     return None
 
 
@@ -763,10 +1474,15 @@ def oracle(case, res):
 def nontrivial(case, res):
     if "init" in res:
         return True
-    if case["op"] == "select":
+    op = case["op"]
+    if op == "select":
         r = res["r"]
         return any(isinstance(x, dict) for x in r) or (True in r and False in r)
-    return len(res.get("groups", [])) >= 2 and any(len(g) >= 2 for g in res["groups"])
+    if op in ("filterseq", "runif"):
+        return bool(res["kept"]) and (res["stop"] is not None or len(res["kept"]) != len(case["values"]))
+    if op in ("groupby", "oldgroupby"):
+        return len(res.get("groups", [])) >= 2 and any(len(g) >= 2 for g in res["groups"])
+    return False
 
 
 def _depth(s):
@@ -777,7 +1493,8 @@ def _depth(s):
 
 
 def classify(case, res):
-    if case["op"] == "select":
+    op = case["op"]
+    if op == "select":
         labels = [f"select:{case['top']}:depth={_depth(case['spec'])}:roe={case['roe']}", "select:top=" + case["spec"]["t"]]
         if "init" in res:
             labels.append("select:init-error")
@@ -787,6 +1504,15 @@ def classify(case, res):
             if res["stop"]:
                 labels.append("filter:stopped-by-exception")
         return labels
+    if op in ("filterseq", "runif", "oldgroupby"):
+        labels = [op]
+        if "init" in res:
+            labels.append(op + ":init-error")
+        elif res.get("stop") or res.get("errors"):
+            labels.append(op + ":exception")
+        return labels
+    if op != "groupby":
+        return [op]
     if "init" in res:
         return ["groupby:init=" + res["init"]]
     G, M = _split_paths(case["group_by"]), _split_paths(case["merge"])
@@ -794,7 +1520,11 @@ def classify(case, res):
               f"groupby:maxdepth={max([len(p) for p in G | M] + [0])}",
               f"groupby:groups={min(len(res.get('groups', [])), 10)}"]
     if G & M:
-        labels.append("groupby:overlap(excluded)")
+        labels.append("groupby:overlap(accepted)")
+    if res.get("errors"):
+        labels.append("groupby:fill-error")
+    if case.get("via") == "update":
+        labels.append("groupby:update/clear")
     return labels
 
 
@@ -803,20 +1533,32 @@ def signature(case, failure):
     return jdump(c)
 
 
+def _shrink_spec(s):
+    for sub in list(s.get("l", [])) + ([s["s"]] if isinstance(s.get("s"), dict) else []):
+        yield sub
+    if "l" in s and len(s["l"]) > 1:
+        for i in range(len(s["l"])):
+            yield dict(s, l=s["l"][:i] + s["l"][i + 1:])
+
+
 def shrink(case):
-    if case["op"] == "select":
+    op = case["op"]
+    if op in ("select", "filterseq", "runif", "oldgroupby"):
         vals = case["values"]
         if len(vals) > 1:
             for i in range(len(vals)):
                 yield dict(case, values=vals[:i] + vals[i + 1:])
-        s = case["spec"]
-        for sub in list(s.get("l", [])) + ([s["s"]] if isinstance(s.get("s"), dict) else []):
-            yield dict(case, spec=sub)
-        if "l" in s and len(s["l"]) > 1:
-            for i in range(len(s["l"])):
-                yield dict(case, spec=dict(s, l=s["l"][:i] + s["l"][i + 1:]))
+        for k in ("spec", "a", "b"):
+            if k in case:
+                for sub in _shrink_spec(case[k]):
+                    yield dict(case, **{k: sub})
+        if op == "oldgroupby" and isinstance(case["group_by"], list) and len(case["group_by"]) > 1:
+            for i in range(len(case["group_by"])):
+                yield dict(case, group_by=case["group_by"][:i] + case["group_by"][i + 1:])
         return
-    cs = _contexts(case)
+    if op != "groupby":
+        return
+    cs = [_unmk(c) for c in _contexts(case)]
     base = {k: v for k, v in case.items() if k != "ctxset"}
     if len(cs) > 2:
         # a wrong merge or a wrong separation is visible on two values
@@ -830,6 +1572,9 @@ def shrink(case):
             yield dict(base, contexts=cs[half:])
             for i in range(len(cs)):
                 yield dict(base, contexts=cs[:i] + cs[i + 1:])
+    elif len(cs) == 2:
+        yield dict(base, contexts=cs[:1])
+        yield dict(base, contexts=cs[1:])
     for k in ("group_by", "merge"):
         a = case[k]
         if isinstance(a, list) and len(a) > 1:
@@ -838,15 +1583,20 @@ def shrink(case):
 
 
 # ---- MANIFEST texts ------------------------------------------------------------------------
-LEVEL_TEXT = ("Lean 4 theorems about a transcribed model of Selector/And/Or/Not/SelectContext/Filter (deep-embedded "
-              "specifications of any nesting depth, both raise_on_error settings, construction errors) and of "
-              "make_include_exclude_tree + IncludeExcludeTree.get + GroupBy (trees of any depth: get keeps exactly the paths "
-              "whose longest listed prefix is an include entry; two values share a group iff their contexts agree on every such "
-              "path; arrival order preserved), tied to /repo by a correspondence check (exhaustive over depth-2 specifications "
-              "and over all 1458 key sets x 361 contexts on a two-key alphabet, sampled beyond) and a direct reference-evaluator / "
-              "reference-partition oracle on the real code.")
+LEVEL_TEXT = ("Lean 4 theorems about a transcribed model of Selector/And/Or/Not/SelectContext/Filter/RunIf (deep-embedded "
+              "specifications of any nesting depth, both raise_on_error settings, construction errors, malformed keys, two "
+              "filters in a sequence = one filter with And) and of make_include_exclude_tree + IncludeExcludeTree.get + GroupBy "
+              "(trees of any depth: get keeps exactly the paths selected by the rule the code implements for ALL accepted key "
+              "sets, which is the longest-listed-prefix rule when no path is listed twice; the rejected key sets are exactly the "
+              "improperly nested ones; two values share a group iff their contexts agree on every selected path; arrival order "
+              "preserved; fill raises exactly for an unserialisable object at a selected path) and of the deprecated _GroupBy, "
+              "tied to /repo by a correspondence check (exhaustive over depth-2 specifications, all Not-chains, all 1458 key sets "
+              "x 361 contexts and all overlapping key sets on a two-key alphabet, sampled beyond; the specification-side "
+              "definitions are executed by the driver and compared too) and a direct reference-evaluator / reference-partition "
+              "oracle on the real code.")
 LEVEL_NOTE = ("Trusted: Lean kernel (+ propext, Classical.choice, Quot.sound), the hand transcription validated by the "
               "correspondence run, slot-vector dictionaries, injectivity of to_string on JSON contexts, the JSON protocol. "
-              "Hypothesis: group_by and merge list no common path.")
+              "The partition oracle is silent on key sets that list a path in both group_by and merge (covered by theorems and "
+              "correspondence).")
 TECHNIQUE = "Lean 4 proof over hand-written model + correspondence check (exhaustive small scopes, sampled deeper) + reference oracle"
 DESIGN_REF = "DESIGN.md section 3, C15"
